@@ -280,6 +280,74 @@ impl World {
         });
         (client, h)
     }
+
+    /// Like [`World::serve`], but the endpoint's side of the transport records how it was ended:
+    /// shut down in an orderly way (what a TLS stream turns into close_notify + FIN) or just
+    /// dropped; and the client can make the endpoint's next read fail (a reset connection).
+    pub fn serve_recorded(
+        &self,
+        proto: Proto,
+        channel: ChannelView,
+        sni: &str,
+        peer: SocketAddr,
+        buf: usize,
+    ) -> (DuplexStream, TransportRecord, tokio::task::JoinHandle<Result<(), String>>) {
+        let (client, server) = tokio::io::duplex(buf);
+        let rec = TransportRecord::default();
+        let io = RecordedIo { inner: server, rec: rec.clone() };
+        let core = self.core.clone();
+        let sni = sni.to_string();
+        let h = tokio::spawn(async move { core.verif_serve_connection(io, peer, proto, channel, sni, None).await });
+        (client, rec, h)
+    }
+}
+
+#[derive(Clone, Default)]
+pub struct TransportRecord {
+    pub shut_down: Arc<AtomicBool>,
+    pub dropped: Arc<AtomicBool>,
+    /// the endpoint's reads fail with ECONNRESET from now on (write a byte to wake a pending read)
+    pub reset_reads: Arc<AtomicBool>,
+}
+
+pub struct RecordedIo {
+    inner: DuplexStream,
+    rec: TransportRecord,
+}
+
+impl Drop for RecordedIo {
+    fn drop(&mut self) {
+        self.rec.dropped.store(true, Ordering::SeqCst);
+    }
+}
+
+impl tokio::io::AsyncRead for RecordedIo {
+    fn poll_read(mut self: std::pin::Pin<&mut Self>, cx: &mut std::task::Context<'_>, buf: &mut tokio::io::ReadBuf<'_>) -> std::task::Poll<io::Result<()>> {
+        if self.rec.reset_reads.load(Ordering::SeqCst) {
+            return std::task::Poll::Ready(Err(io::Error::from(io::ErrorKind::ConnectionReset)));
+        }
+        let r = std::pin::Pin::new(&mut self.inner).poll_read(cx, buf);
+        if self.rec.reset_reads.load(Ordering::SeqCst) {
+            return std::task::Poll::Ready(Err(io::Error::from(io::ErrorKind::ConnectionReset)));
+        }
+        r
+    }
+}
+
+impl tokio::io::AsyncWrite for RecordedIo {
+    fn poll_write(mut self: std::pin::Pin<&mut Self>, cx: &mut std::task::Context<'_>, buf: &[u8]) -> std::task::Poll<io::Result<usize>> {
+        std::pin::Pin::new(&mut self.inner).poll_write(cx, buf)
+    }
+    fn poll_flush(mut self: std::pin::Pin<&mut Self>, cx: &mut std::task::Context<'_>) -> std::task::Poll<io::Result<()>> {
+        std::pin::Pin::new(&mut self.inner).poll_flush(cx)
+    }
+    fn poll_shutdown(mut self: std::pin::Pin<&mut Self>, cx: &mut std::task::Context<'_>) -> std::task::Poll<io::Result<()>> {
+        let r = std::pin::Pin::new(&mut self.inner).poll_shutdown(cx);
+        if matches!(r, std::task::Poll::Ready(Ok(()))) {
+            self.rec.shut_down.store(true, Ordering::SeqCst);
+        }
+        r
+    }
 }
 
 // ---------------------------------------------------------------------------------------------
@@ -301,6 +369,8 @@ pub struct PeerHandle {
     /// while false the destination accepts no byte from the tunnel (back-pressure)
     pub accept: Arc<AtomicBool>,
     pub accept_changed: Arc<tokio::sync::Notify>,
+    /// when set, the destination fails the next write with this error (EPIPE and the like)
+    pub fail_write: Arc<Mutex<Option<io::ErrorKind>>>,
 }
 
 impl PeerHandle {
@@ -323,6 +393,7 @@ pub struct MemSink {
     echo: Option<mpsc::UnboundedSender<PeerMsg>>,
     accept: Arc<AtomicBool>,
     accept_changed: Arc<tokio::sync::Notify>,
+    fail_write: Arc<Mutex<Option<io::ErrorKind>>>,
 }
 
 impl Drop for MemSource {
@@ -361,6 +432,9 @@ impl ByteSource for MemSource {
 #[async_trait]
 impl ByteSink for MemSink {
     fn write(&mut self, data: Bytes) -> io::Result<Bytes> {
+        if let Some(k) = *self.fail_write.lock().unwrap() {
+            return Err(io::Error::from(k));
+        }
         if !self.accept.load(Ordering::SeqCst) {
             return Ok(data);
         }
@@ -402,6 +476,7 @@ pub fn mem_peer(echo: bool) -> (PipeHalves, PeerHandle) {
         to_client: tx.clone(),
         accept: Arc::new(AtomicBool::new(true)),
         accept_changed: Default::default(),
+        fail_write: Default::default(),
     };
     let src = MemSource {
         rx,
@@ -415,6 +490,7 @@ pub fn mem_peer(echo: bool) -> (PipeHalves, PeerHandle) {
         echo: echo.then_some(tx),
         accept: h.accept.clone(),
         accept_changed: h.accept_changed.clone(),
+        fail_write: h.fail_write.clone(),
     };
     ((Box::new(src), Box::new(sink)), h)
 }
